@@ -1370,7 +1370,7 @@ pub fn replay_ucisample(prop: &str, case: &Value, out: &mut Out) {
 /// are commands sent just before (other `position` commands whose game must be replaced
 /// entirely); `startpos_form` writes the standard start as `startpos` instead of its FEN.
 /// Returns false if the engine stopped answering.
-fn c20_show_one(out: &mut Out, sess: &mut Session, keys: &chess_oracle::zobrist::Keys, prelude: &[String], root: &Root, startpos_form: bool) -> bool {
+fn c20_show_one(out: &mut Out, sess: &mut Session, keys: &chess_oracle::zobrist::Keys, prelude: &[String], root: &Root, startpos_form: bool, illegal_tail: Option<&str>) -> bool {
     let Ok(start) = fen::parse_strict(&root.fen) else { return true };
     let mut p = start.clone();
     let mut hist: Vec<(Pos, Mv)> = vec![];
@@ -1379,16 +1379,23 @@ fn c20_show_one(out: &mut Out, sess: &mut Session, keys: &chess_oracle::zobrist:
         hist.push((p.clone(), m));
         p = p.make(&m);
     }
-    let case = json!({"kind":"show","root":root.json(),"prelude":prelude,"startpos_form":startpos_form});
+    let case = json!({"kind":"show","root":root.json(),"prelude":prelude,"startpos_form":startpos_form,"illegal_tail":illegal_tail});
     sess.log.clear();
     for c in prelude {
         sess.send(c);
     }
     let mut cmd = if startpos_form && root.fen == gen::START_FEN { "position startpos".to_string() } else { format!("position fen {}", root.fen) };
-    if !root.moves.is_empty() || !startpos_form {
+    if !root.moves.is_empty() || !startpos_form || illegal_tail.is_some() {
         // (a trailing `moves` keyword with an empty list is what the plain form has always sent)
         cmd.push_str(" moves ");
         cmd.push_str(&root.moves.join(" "));
+    }
+    if let Some(t) = illegal_tail {
+        // a move the generator produces but the rules forbid (it leaves the own king attacked):
+        // it must be refused and leave no trace in what is shown
+        cmd.push(' ');
+        cmd.push_str(t);
+        out.add("shows_after_a_refused_move", 1);
     }
     sess.send(cmd.trim_end());
     sess.send("show");
@@ -1421,7 +1428,7 @@ fn c20_show_one(out: &mut Out, sess: &mut Session, keys: &chess_oracle::zobrist:
         out.add("shows_in_startpos_form", 1);
     }
     let mut d = vec![];
-    if !shown.errors.is_empty() {
+    if !shown.errors.is_empty() && illegal_tail.is_none() {
         d.push(format!("errors {:?}", shown.errors));
     }
     if shown.fen.as_deref().map(fen4).as_deref() != Some(f4.as_str()) {
@@ -1511,12 +1518,148 @@ pub fn worker_c20show(shard: usize, nshards: usize, seed: u64, tier: &str, out: 
             }
             _ => {}
         }
-        out.begin(&json!({"kind":"show","root":root.json(),"prelude":prelude,"startpos_form":gi % 2 == 1}));
-        let alive = c20_show_one(out, &mut sess, &keys, &prelude, &root, gi % 2 == 1);
+        // every fifth case: one more move that the generator offers but that leaves the own king
+        // attacked (if the final position has such a move)
+        let mut tail: Option<String> = None;
+        if gi % 5 == 2 {
+            if let Some(p) = root.shadow() {
+                let legal: Vec<String> = p.legal_moves().iter().map(|m| m.uci()).collect();
+                let bad: Vec<String> = p.pseudo_moves().iter().map(|m| m.uci()).filter(|t| !legal.contains(t)).collect();
+                if !bad.is_empty() {
+                    tail = Some(rng.pick(&bad).clone());
+                }
+            }
+        }
+        out.begin(&json!({"kind":"show","root":root.json(),"prelude":prelude,"startpos_form":gi % 2 == 1,"illegal_tail":tail}));
+        let alive = c20_show_one(out, &mut sess, &keys, &prelude, &root, gi % 2 == 1, tail.as_deref());
         out.end();
         if !alive {
             return;
         }
+    }
+    sess.send("quit");
+    let _ = sess.wait_exit(Duration::from_secs(5));
+}
+
+/// C11 through the binary: `position ...; show`, then the printed FEN is sent back with
+/// `position fen <that text>; show`: both displays must describe the position the oracle reached
+/// (placement, side, rights, en-passant file, hash), and the re-import must be accepted.
+fn c11_reimport_one(out: &mut Out, sess: &mut Session, keys: &chess_oracle::zobrist::Keys, root: &Root) -> bool {
+    let Some(p) = root.shadow() else { return true };
+    let case = json!({"kind":"reimport","root":root.json()});
+    let f4 = fen::render4(&p);
+    let want_hash = format!("{:X}", keys.hash(&p));
+    let mut ask = |sess: &mut Session, cmd: &str| -> Option<crate::uci::Shown> {
+        sess.log.clear();
+        sess.send(cmd);
+        sess.send("show");
+        sess.send("isready");
+        let mut lines = vec![];
+        loop {
+            match sess.next(Duration::from_secs(15)) {
+                Some(ev) if ev.kind == Kind::Out => {
+                    if ev.text == "readyok" {
+                        return Some(parse_shown(&lines));
+                    }
+                    lines.push(ev.text);
+                }
+                Some(ev) if ev.kind == Kind::OutEof => return None,
+                Some(_) => {}
+                None => return None,
+            }
+        }
+    };
+    let Some(first) = ask(sess, &Cmd::Position(root.clone()).text()) else {
+        out.viol("C11", &format!("C11|cmd-died|{f4}"), &format!("engine stopped answering at show: {}", sess.stderr_text()), case);
+        return false;
+    };
+    out.add("command_level_exports", 1);
+    if p.in_check(p.white_to_move) {
+        out.add("command_level_exports_with_the_mover_in_check", 1);
+    }
+    let Some(text) = first.fen.clone() else {
+        out.viol("C11", &format!("C11|cmd-nofen|{f4}"), &format!("`show` for {f4} printed no Fen line"), case);
+        return true;
+    };
+    let mut d = vec![];
+    if fen4(&text) != f4 {
+        d.push(format!("exported text {text:?} does not describe {f4}"));
+    }
+    let Some(second) = ask(sess, &format!("position fen {text}")) else {
+        out.viol("C11", &format!("C11|cmd-died|{f4}"), &format!("engine stopped answering after re-importing {text:?}: {}", sess.stderr_text()), case);
+        return false;
+    };
+    out.add("command_level_reimports", 1);
+    if !second.errors.is_empty() {
+        d.push(format!("re-importing the exported text {text:?} is refused: {:?}", second.errors));
+    } else {
+        if second.fen.as_deref().map(fen4).as_deref() != Some(f4.as_str()) {
+            d.push(format!("after re-importing {text:?} the display shows {:?}", second.fen));
+        }
+        if second.hash.as_deref() != Some(want_hash.as_str()) || first.hash.as_deref() != Some(want_hash.as_str()) {
+            d.push(format!("hash before {:?}, after re-import {:?}, key-file value {want_hash}", first.hash, second.hash));
+        }
+    }
+    if !d.is_empty() {
+        out.viol("C11", &format!("C11|cmd|{f4}"), &format!("`{}`; show; `position fen <exported text>`; show: {}", Cmd::Position(root.clone()).text().chars().take(140).collect::<String>(), d.join(" | ")), case);
+    }
+    true
+}
+
+pub fn worker_c11cmd(shard: usize, nshards: usize, seed: u64, tier: &str, out: &mut Out) {
+    let corpus = gen::corpus();
+    let keys = crate::pgn::load_keys();
+    let n = if tier == "thorough" { 1500 } else { 80 };
+    let Ok(mut sess) = Session::spawn(&engine_bin(false), &[], &[], None) else {
+        out.inconclusive("cannot start the engine");
+        return;
+    };
+    let mut rng = Rng::new(seed, 0x1100 + shard as u64);
+    for gi in 0..n {
+        let mut spec = gen::game_spec(&corpus, seed ^ 0x1111, gi as u64 * nshards as u64 + shard as u64);
+        // checking and capturing policies: many positions with the mover in check, few pieces, promotions
+        spec.policy = [2u8, 6, 1, 0, 5, 7][gi % 6];
+        spec.max_plies = spec.max_plies.min(200);
+        let mut moves = game_moves(&spec);
+        // prefer to stop where the side to move is in check (every second game)
+        if gi % 2 == 0 {
+            if let Ok(mut p) = fen::parse_strict(&spec.start_fen) {
+                let mut cuts = vec![];
+                for (i, t) in moves.iter().enumerate() {
+                    let Some(m) = p.find_uci(t) else { break };
+                    p = p.make(&m);
+                    if p.in_check(p.white_to_move) {
+                        cuts.push(i + 1);
+                    }
+                }
+                if !cuts.is_empty() {
+                    moves.truncate(*rng.pick(&cuts));
+                }
+            }
+        } else {
+            let l = rng.below(moves.len() + 1);
+            moves.truncate(l);
+        }
+        let root = Root { fen: spec.start_fen.clone(), moves };
+        out.begin(&json!({"kind":"reimport","root":root.json()}));
+        let alive = c11_reimport_one(out, &mut sess, &keys, &root);
+        out.end();
+        if !alive {
+            return;
+        }
+    }
+    sess.send("quit");
+    let _ = sess.wait_exit(Duration::from_secs(5));
+}
+
+pub fn replay_c11cmd(case: &Value, out: &mut Out) {
+    let Some(root) = Root::from_json(&case["root"]) else { return };
+    let keys = crate::pgn::load_keys();
+    let Ok(mut sess) = Session::spawn(&engine_bin(false), &[], &[], None) else { return };
+    println!("replaying export/re-import through the binary for {}", root.json());
+    c11_reimport_one(out, &mut sess, &keys, &root);
+    for l in sess.transcript().iter().rev().take(30).rev() {
+        println!("{l}");
     }
     sess.send("quit");
     let _ = sess.wait_exit(Duration::from_secs(5));
@@ -1531,7 +1674,7 @@ pub fn replay_c20show(case: &Value, out: &mut Out) {
         return;
     };
     println!("replaying show case: prelude {prelude:?}, root {}", root.json());
-    c20_show_one(out, &mut sess, &keys, &prelude, &root, case["startpos_form"].as_bool().unwrap_or(false));
+    c20_show_one(out, &mut sess, &keys, &prelude, &root, case["startpos_form"].as_bool().unwrap_or(false), case["illegal_tail"].as_str());
     sess.send("quit");
     let _ = sess.wait_exit(Duration::from_secs(5));
 }
